@@ -467,7 +467,10 @@ func srcSide(r *mon.Run) {
 		name := fmt.Sprintf("src %s fail@%d/%d kind=%s max=%d err-with-data=%v", j.f.name, j.at, len(j.f.file), j.kind.name, j.max, j.withData)
 		r.Guard(name, func() {
 			fr := &mon.FaultReader{Data: j.f.file, FailAt: j.at, Err: j.kind.err, Max: j.max, WithData: j.withData}
-			res := ax.Decrypt(fr, j.f.armored, 0, keys.P(j.f.party).Identity)
+			// consumption mode rotates: Read loop, io.Copy (the reader's own
+			// WriteTo if it has one), io.ReadAll
+			mode := []int{0, ax.CopyMode, 0, ax.ReadAllMode, 1000}[(j.at+len(j.kind.name))%5]
+			res := ax.Decrypt(fr, j.f.armored, mode, keys.P(j.f.party).Identity)
 			r.Eval(1)
 			if fr.Fired == 0 {
 				r.Count("src_fault_not_reached", 1)
